@@ -640,6 +640,33 @@ WITNESS = dict(fn='numpy3', layout='inexact-witness', metric='EUCLIDEAN',
                mode='default', max_distance='inf')
 
 
+# layouts on which one particular edit of the sweep logic changes the result (found by differential search with
+# mutated copies of the extracted model): the diagonal candidate, the direction of the second call, the reset of
+# pan_near between the passes, strict vs non-strict comparison.  Random layouts are rarely sensitive to the first.
+HARD_LAYOUTS = [
+    ('nodiag', [[3, 0, 4, 1], [0, 0, 2, 0], [0, 0, 0, 0], [0, 0, 0, 5]], 3.0),
+    ('nodiag', [[0, 1, 0, 0], [0, 0, 3, 0], [0, 0, 0, 0], [0, 0, 0, 2]], 'inf'),
+    ('nodiag', [[5, 0, 0, 2, 0], [0, 0, 1, 0, 0], [0, 0, 0, 0, 0], [0, 0, 0, 3, 0]], 'inf'),
+    ('nodiag', [[5, 0, 0, 0, 0], [0, 0, 4, 6, 2], [0, 0, 0, 0, 1], [0, 0, 0, 3, 0]], 'inf'),
+    ('samedir', [[0, 0, 0, 0], [0, 0, 3, 0], [0, 0, 0, 0], [1, 2, 0, 0]], 'inf'),
+    ('samedir', [[0, 0, 2, 0], [0, 0, 0, 0], [1, 0, 0, 0], [0, 6, 0, 5]], 'inf'),
+    ('nopanreset', [[0, 0, 0, 0], [0, 0, 0, 0], [0, 0, 0, 0], [3, 0, 2, 0]], 2.0),
+    ('nopanreset', [[0, 0, 5, 0], [0, 0, 0, 0], [0, 0, 0, 0], [1, 3, 0, 4]], 1.5),
+    ('le', [[0, 1, 0, 0], [4, 0, 5, 0], [0, 2, 0, 0], [3, 0, 0, 0]], 'inf'),
+    ('le', [[0, 5, 0, 0], [0, 0, 0, 0], [3, 0, 0, 0], [0, 1, 0, 4]], 3.0),
+]
+
+
+def hard_cases():
+    out = []
+    for name, g, md in HARD_LAYOUTS:
+        h, w = len(g), len(g[0])
+        out.append(dict(fn='numpy3', layout='hard-' + name, metric='EUCLIDEAN', data=[[float(v) for v in row] for row in g],
+                        dtype='float64', xs=list(range(w)), ys=list(range(h)), cdtype='float64', ykind='unit', xkind='unit',
+                        tv=[], mode='default', max_distance=md))
+    return out
+
+
 def canon_impl(res):
     """worker result -> ({name: grid}, {name: error})"""
     grids, errs = {}, {}
@@ -666,7 +693,7 @@ def nontrivial(case):
 def build_cases(ctx, n_main, n_small, n_gc):
     rng = ctx.rng
     cases = [dict(FIXTURE), dict(FIXTURE, max_distance=2.0), dict(FIXTURE, metric='MANHATTAN', max_distance=3.0),
-             dict(WITNESS)]
+             dict(WITNESS)] + hard_cases()
     for i in range(n_main):
         cases.append(gen_case(rng, i))
     for i in range(n_small):
@@ -709,7 +736,7 @@ def process_results(ctx, cases, results, what='numpy'):
 
 def run(ctx):
     if ctx.quick():
-        cases = build_cases(ctx, 32, 9, 5)
+        cases = build_cases(ctx, 26, 7, 4)
     else:
         cases = build_cases(ctx, 420, 120, 60)
     pool = ImplPool()
